@@ -115,7 +115,8 @@ class Effects:
         self.repo = repo
         self.cg = cg or CallGraph(repo)
         self._cfg_of = cfg_of or (lambda fn: CFG(fn))
-        self.mut: Dict[str, Dict[str, str]] = {}  # fref -> origin -> level
+        self.mut: Dict[str, Dict[str, str]] = {}  # fref -> origin -> (highest) level
+        self.mutset: Dict[str, Dict[str, Set[str]]] = {}  # fref -> origin -> every level written
         self.ret: Dict[str, Dict[str, Set[str]]] = {}  # fref -> param -> levels of the returned value
         self.ret_elems: Dict[str, Dict[int, Dict[str, Set[str]]]] = {}  # tuple returns: element index -> param -> levels
         self.witness: Dict[Tuple[str, str], Mutation] = {}  # (fref, origin) -> strongest mutation found
@@ -201,6 +202,12 @@ class Effects:
         def record(origin: str, level: Optional[str], node: ast.AST, what: str, via=None):
             if level is None or origin == "<fresh>":
                 return
+            # all levels at which the origin is written (a caller that passes a shallow copy is hit by the INTERIOR
+            # write even when there is also a TOP write, which only touches the copy)
+            lset = me.mutset.setdefault(fref, {}).setdefault(origin, set())
+            if level not in lset:
+                lset.add(level)
+                changed[0] = True
             if MUT_RANK[level] > MUT_RANK.get(mut.get(origin), 0):
                 mut[origin] = level
                 changed[0] = True
@@ -334,11 +341,12 @@ class Effects:
                     tmut = me.mut.get(t)
                     if tmut is None:
                         continue  # not analysed (outside the reachable set)
-                    for q, m in list(tmut.items()):
-                        if q.startswith("g:"):
-                            record(q, m, c, f"call of {t.split(':')[1]}", via=(t, q))
-                        elif q in amap:
-                            mutate(amap[q](st), c, f"argument `{q}` of {t.split(':')[1]}", m, via=(t, q))
+                    for q, m0 in list(tmut.items()):
+                        for m in sorted(me.mutset.get(t, {}).get(q, {m0}), key=lambda x: -MUT_RANK[x]):
+                            if q.startswith("g:"):
+                                record(q, m, c, f"call of {t.split(':')[1]}", via=(t, q))
+                            elif q in amap:
+                                mutate(amap[q](st), c, f"argument `{q}` of {t.split(':')[1]}", m, via=(t, q))
                     for q, levels in me.ret.get(t, {}).items():
                         if q in amap:
                             v = amap[q](st)
